@@ -164,7 +164,6 @@ theorem C05_add_param_args {V : Type} (defn defaults args : Dict V) (k : String)
 namespace Dict
 variable {V : Type}
 
-def keys (d : Dict V) : List String := d.kv.map (·.1)
 
 theorem lastOf_eq_get?_of_nodup (l : List (String × V)) (h : (l.map (·.1)).Nodup) (x : String) :
     lastOf l x = (Dict.mk l).get? x := by
